@@ -103,7 +103,8 @@ fn main() {
                 .or_else(|_| serde_json::from_slice::<engine::ReplayFile>(&bytes).map(|r| r.case))
                 .expect("case json");
             let active = list(opt(&args, "--active"));
-            on_fixed_stack(move || runner::run_one(prop, &case, active, vec![]))
+            let tier = parse_tier(opt(&args, "--tier").as_deref().unwrap_or("quick"));
+            on_fixed_stack(move || runner::run_one(prop, &case, active, vec![], tier))
         }
         other => {
             eprintln!("unknown command {other}");
